@@ -40,7 +40,15 @@ def export(spec, builder=None, top=None):
     return pkg, topm
 
 
-def evaluate(spec, want_netlist=False):
+def spice_readable(spec):
+    """Leaves the spice reader understands (external modules, ideal R/C/L/VCVS) and plainly named modules."""
+    for c in spec["cells"]:
+        if c["kind"] == "prim" and c["prim"] not in ("R", "C", "L", "Vcvs"):
+            return False
+    return all(m.get("style", "proc") != "gen" for m in spec["modules"])
+
+
+def evaluate(spec, want_netlist=True):
     """Run in a child.  Returns a dict verdict:
        {"status": "agree"|"reject"|"fail"|"model_reject"|"inconclusive", "sig":..., "detail":..., "pkg": bytes?}"""
     try:
@@ -64,6 +72,25 @@ def evaluate(spec, want_netlist=False):
         out.update(status="fail", sig="malformed_package", detail=str(e))
         return out
     verdict, why = iso.compare(want, got)
+    if verdict == "iso" and want_netlist and spice_readable(spec):
+        # second, independent reading: the SPICE text written by the vlsirtools netlister
+        import io
+        from . import spiceread
+        env.setup_paths()
+        import hdl21 as h
+        try:
+            sio = io.StringIO()
+            h.netlist(pkg, sio, fmt="spice")
+            got2 = spiceread.flatten(sio.getvalue(), spec, pkg.modules[-1].name.split(".")[-1])
+            v2, why2 = iso.compare(want, got2)
+            out["spice"] = v2
+            if v2 == "diff":
+                out.update(status="fail", sig="connectivity_spice_text", detail="SPICE netlist text disagrees with the design: " + why2)
+                return out
+        except spiceread.SpiceError as e:
+            out["spice"] = "unreadable: %s" % str(e)[:120]
+        except Exception as e:
+            out["spice"] = "netlister: %s" % type(e).__name__
     if verdict == "iso":
         out.update(status="agree")
     elif verdict == "inconclusive":
